@@ -41,7 +41,9 @@ fn cpu_s() -> f64 {
     ts[0] as f64 + ts[1] as f64 * 1e-9
 }
 
-const SLOW_CALL_CPU_S: f64 = 8.0;
+/// "small time budget": typical calls take 0.05-50 ms on <= 300 objects; the limit is three orders of
+/// magnitude above that and measured in CPU time of the calling thread so that load cannot trip it.
+const SLOW_CALL_CPU_S: f64 = 30.0;
 
 /// Mild faults: what a damaged but plausible file looks like (realistic domain).
 fn mild_fault(rng: &mut Rng, data: &mut Vec<u8>) -> &'static str {
@@ -177,6 +179,68 @@ fn gen_case(rng: &mut Rng, tier: Tier, adversarial: bool) -> PipeCase {
     }
 }
 
+/// Longest slider of the map in ms, from the public timing data:
+/// px * spans / (100 * slider_multiplier * slider_velocity / beat_len).
+fn max_slider_duration_ms(m: &Beatmap) -> f64 {
+    let mut max = 0.0f64;
+    for h in &m.hit_objects {
+        if let HitObjectKind::Slider(s) = &h.kind {
+            let mut px = 0.0f64;
+            for w in s.control_points.windows(2) {
+                let dx = f64::from(w[1].pos.x - w[0].pos.x);
+                let dy = f64::from(w[1].pos.y - w[0].pos.y);
+                px += (dx * dx + dy * dy).sqrt();
+            }
+            let px = s.expected_dist.unwrap_or(px);
+            let beat_len = m
+                .timing_points
+                .iter()
+                .rev()
+                .find(|p| p.time <= h.start_time)
+                .or(m.timing_points.first())
+                .map_or(500.0, |p| p.beat_len);
+            let sv = m
+                .difficulty_points
+                .iter()
+                .rev()
+                .find(|p| p.time <= h.start_time)
+                .map_or(1.0, |p| p.slider_velocity);
+            let velocity = 100.0 * m.slider_multiplier * sv / beat_len;
+            let d = px * (s.repeats as f64 + 1.0) / velocity;
+            if d > max {
+                max = d;
+            }
+        }
+    }
+    max
+}
+
+const HOUR_MS: f64 = 3_600_000.0;
+
+/// Discriminating conditions that become part of a violation class.
+fn map_tags(m: &Beatmap) -> Vec<String> {
+    let mut t = Vec::new();
+    if max_slider_duration_ms(m) > HOUR_MS {
+        t.push("slider-longer-than-1h".to_owned());
+    }
+    t
+}
+
+/// "times in [0, 3h]" of the realistic domain: every object starts and ends inside it
+/// (a few seconds of lead-in before 0 are tolerated: editors allow negative offsets).
+fn times_realistic(m: &Beatmap) -> bool {
+    let lim = 3.0 * HOUR_MS;
+    m.hit_objects.iter().all(|h| {
+        let dur = match &h.kind {
+            HitObjectKind::Spinner(s) => s.duration,
+            HitObjectKind::Hold(s) => s.duration,
+            _ => 0.0,
+        };
+        h.start_time >= -5000.0 && h.start_time + dur <= lim
+    }) && max_slider_duration_ms(m) <= lim
+        && m.hit_objects.iter().all(|h| h.pos.x.abs() <= 2048.0 && h.pos.y.abs() <= 2048.0)
+}
+
 /// The property's domain predicate.
 fn in_domain(m: &Beatmap) -> Result<(), &'static str> {
     if m.check_suspicion().is_err() {
@@ -224,7 +288,16 @@ fn exec(c: &PipeCase, st: &mut Stats, adversarial: bool) -> Option<Violation> {
         st.probe(&format!("outside_domain_{why}"));
         return None;
     }
+    if !adversarial && !times_realistic(&map) {
+        st.probe("outside_realistic_times_or_coordinates");
+        return None;
+    }
     st.probe("in_domain");
+    let tags = map_tags(&map);
+    let tag_suffix = if tags.is_empty() { String::new() } else { format!("+{}", tags.join("+")) };
+    for t in &tags {
+        st.probe(&format!("tag_{t}"));
+    }
     let mm = mode_idx(map.mode);
     let mut first: Option<Violation> = None;
     let mut call = |name: &str, target: usize, f: &mut dyn FnMut()| {
@@ -238,13 +311,13 @@ fn exec(c: &PipeCase, st: &mut Stats, adversarial: bool) -> Option<Violation> {
         match r {
             Err(p) => {
                 first = Some(Violation::new(
-                    format!("C05/{dom}/{}/{name}/panic@{}", mode_name(target), panic_site(&p)),
+                    format!("C05/{dom}/{}/{name}/panic@{}{tag_suffix}", mode_name(target), panic_site(&p)),
                     p,
                 ));
             }
             Ok(()) if dt > SLOW_CALL_CPU_S => {
                 first = Some(Violation::new(
-                    format!("C05/{dom}/{}/{name}/slow", mode_name(target)),
+                    format!("C05/{dom}/{}/{name}/slow{tag_suffix}", mode_name(target)),
                     format!("{dt:.1} CPU-seconds for one call on a map with {} objects", map.hit_objects.len()),
                 ));
             }
@@ -441,6 +514,12 @@ macro_rules! pipe_engine {
             }
             fn nontrivial(c: &PipeCase) -> bool {
                 !c.storage_faults.is_empty()
+            }
+            fn tags(c: &PipeCase) -> Vec<String> {
+                match guard(|| Beatmap::from_bytes(&c.content)) {
+                    Ok(Ok(m)) => map_tags(&m),
+                    _ => Vec::new(),
+                }
             }
         }
     };
